@@ -1253,6 +1253,28 @@ func (k Keeper) DrawAsset(ctx sdk.Context, borrowID uint64, borrowerAddr string,
 	if err != nil {
 		return err
 	}
+	if pair.IsInterPool {
+		// a cross-pool loan is backed in the lending pool by the bridged transit asset only: as in BorrowAsset,
+		// the debt must also stay within the transit asset's loan-to-value of the bridged amount
+		assetInPool, found := k.GetPool(ctx, lendPos.PoolID)
+		if !found {
+			return types.ErrPoolNotFound
+		}
+		for _, data := range assetInPool.AssetData {
+			bridgedAsset, _ := k.Asset.GetAsset(ctx, data.AssetID)
+			if data.AssetTransitType == 1 || bridgedAsset.Denom != borrowPos.BridgedAssetAmount.Denom {
+				continue
+			}
+			bridgedAssetRatesStats, found := k.GetAssetRatesParams(ctx, bridgedAsset.Id)
+			if !found {
+				return types.ErrAssetStatsNotFound
+			}
+			err = k.VerifyCollateralizationRatio(ctx, borrowPos.BridgedAssetAmount.Amount, bridgedAsset, borrowPos.AmountOut.Amount.Add(borrowPos.InterestAccumulated.TruncateInt()).Add(amount.Amount), assetOut, bridgedAssetRatesStats.Ltv)
+			if err != nil {
+				return err
+			}
+		}
+	}
 	if err = k.bank.SendCoinsFromModuleToAccount(ctx, pool.ModuleName, addr, sdk.NewCoins(amount)); err != nil {
 		return err
 	}
